@@ -2,12 +2,14 @@ package gossipsim
 
 import (
 	"bytes"
+	"context"
 	"fmt"
 	"image/color"
 	"os"
 	"regexp"
 	"runtime/debug"
 	"strings"
+	"sync"
 	"testing"
 	"testing/synctest"
 	"time"
@@ -57,6 +59,15 @@ type Config struct {
 
 // DrawConfig draws the swarm configuration.
 var forceSQL = os.Getenv("GOSSIPSIM_SQL") != ""
+
+// blockInsideBurst (GOSSIPSIM_BLOCK_IN_BURST=1) is an experiment, not part of
+// the check: a block is mined while the messages of a burst are still being
+// handled. The step oracle compares projections taken at step boundaries with
+// the chain as it is at the end of the step, so a channel that legitimately
+// entered the graph before the block closed it is misjudged; the arm stays
+// off until the oracle knows the order of chain and gossip events inside a
+// step.
+var blockInsideBurst = os.Getenv("GOSSIPSIM_BLOCK_IN_BURST") == "1"
 
 // noConcurrent maps the concurrent arm onto the sequential one (used by the
 // determinism self-test, which compares trace hashes exactly).
@@ -157,6 +168,20 @@ type Sim struct {
 	cameOnline bool // a channel peer connected in the current step
 	// premature announcement_signatures the node buffers, per named scid
 	annsigPending map[uint64]*annsigBuffered
+	// bbolt worlds: every (channel, direction, timestamp) ever durably stored
+	storedMu   sync.Mutex
+	everStored map[storedKey]bool
+	// the latest stored form of every channel that was ever in the database,
+	// also of those that came and went within one step
+	seenStored map[uint64]*pChan
+	// every channel_announcement (as read back from the store) ever stored
+	everCAWire map[string]bool
+}
+
+type storedKey struct {
+	scid uint64
+	dir  int
+	ts   uint32
 }
 
 var hexAddr = regexp.MustCompile(`0x[0-9a-f]{6,}`)
@@ -390,6 +415,40 @@ func (s *Sim) run() {
 	strictZombieWorld = s.cfg.StrictZombie
 	s.zombieSince, s.liveUpd = map[uint64]uint32{}, map[uint64]bool{}
 	s.w = NewWorld(r, chain, self, s.cfg.Peers, s.cfg.SyncPeers, s.cfg.SQL, s.cfg.BanThreshold, ownChans)
+	if s.w.probe != nil {
+		// Every policy timestamp that was ever durably stored, read after
+		// each commit of the graph database: "relayed" has to imply "was
+		// applied at some point", also when the channel is gone again or a
+		// newer policy replaced it by the time the step is judged.
+		s.everStored = map[storedKey]bool{}
+		s.seenStored = map[uint64]*pChan{}
+		s.everCAWire = map[string]bool{}
+		scids := make([]uint64, 0, len(s.u.chans))
+		for _, c := range s.u.chans {
+			scids = append(scids, c.scid.ToUint64())
+		}
+		s.w.kv.OnCommitted = func(int) {
+			for _, id := range scids {
+				info, p1, p2, err := s.w.probe.FetchChannelEdgesByID(context.Background(), lnwire.GossipVersion1, id)
+				if err != nil || info == nil {
+					continue
+				}
+				s.storedMu.Lock()
+				pc := projChan(info, p1, p2)
+				s.seenStored[id] = pc
+				if pc.wire != nil {
+					s.everCAWire[string(pc.wire)] = true
+				}
+				if p1 != nil {
+					s.everStored[storedKey{id, 0, uint32(p1.LastUpdate.Unix())}] = true
+				}
+				if p2 != nil {
+					s.everStored[storedKey{id, 1, uint32(p2.LastUpdate.Unix())}] = true
+				}
+				s.storedMu.Unlock()
+			}
+		}
+	}
 	logf(r, "config: %+v", s.cfg)
 	if s.cfg.Own {
 		s.initOwn()
@@ -455,12 +514,19 @@ func (s *Sim) run() {
 					ds = append(ds, p)
 				}
 			}
+			blk := ""
+			if blockInsideBurst && r.Draw(4) == 0 {
+				// a block (possibly closing one of the channels the burst is
+				// about) arrives while the messages are still being handled
+				blk = " and " + s.mine()
+				r.Count("probe_block_inside_burst")
+			}
 			s.w.settle()
 			for _, p := range ds {
 				s.report(p)
 			}
 			r.Count("burst_steps")
-			what = fmt.Sprintf("after a burst of %d messages", len(ds))
+			what = fmt.Sprintf("after a burst of %d messages%s", len(ds), blk)
 		case "time":
 			d := []time.Duration{time.Second, 61 * time.Second, 11 * time.Minute, 25 * time.Hour}[r.Draw(4)]
 			r.Kind("time:" + d.String())
